@@ -1,9 +1,10 @@
 //@target src/decoder/adsb/icao.rs
 //@props C03
 //@needs L0_calc,L1_crc
-//@attach fn=get_icao
-//@| #[cfg_attr(kani, kani::requires(crate::verif_spec::valid_msg(message) && df == crate::verif_spec::df_of(message) && crate::verif_spec::agree(message)))]
-//@| #[cfg_attr(kani, kani::ensures(|r: &Option<u32>| !matches!(df, 0 | 4 | 5 | 11 | 16 | 17 | 18 | 20 | 21) || *r == crate::verif_spec::icao_from(message, get_crc(message, df))))]
+// get_icao carries no attached Kani contract: its contract is the harness-form obligation
+// C03.get_icao.* below (requires valid_msg && df == DF(frame) && DF/length agree; ensures the
+// address rule), because the line-step obligations replace get_icao by a stand-in and Kani cannot
+// stub a function that has contract attributes.
 //@attach fn=get_wake_turbulence_category
 //@| #[cfg_attr(kani, kani::ensures(|r: &Option<char>| *r == crate::verif_spec::spec_wake(vc.0, vc.1)))]
 
